@@ -97,6 +97,45 @@ func xzCases(c *hx.Ctx, seed int64) []xzCase {
 		}
 		cases = append(cases, xzCase{G: g, Hist: big[i].Hist, Seed: seed + int64(i)*17, Tag: "hist-big"})
 	}
+	// (4) the product of the boundary sets with short data: every (lc,lp,pb) with lc+lp<=4 x
+	// DictCap x BufSize x BlockSize x check x matcher; sampled with a stride in the quick tier
+	var props [][3]int
+	for lc := 0; lc <= 4; lc++ {
+		for lp := 0; lp+lc <= 4; lp++ {
+			for pb := 0; pb <= 4; pb++ {
+				props = append(props, [3]int{lc, lp, pb})
+			}
+		}
+	}
+	dicts := []int{4096, 4097, 65536 - 273, 65536, 1 << 20}
+	bufs := []int{273, 274, 4096, 65536}
+	blocks := []int64{0, 1, 7, 64, 4096, 1 << 40}
+	checks := []int{0, 1, 4, 10, -1}
+	stride := c.Pick(29, 1)
+	idx := int(seed % 29)
+	for _, p := range props {
+		for _, d := range dicts {
+			for _, b := range bufs {
+				for _, bl := range blocks {
+					for _, ck := range checks {
+						for m := 0; m < 2; m++ {
+							idx++
+							if idx%stride != 0 {
+								continue
+							}
+							data := append(bytes.Repeat([]byte{0}, idx%5), MakeData([]string{"text", "sparse", "random", "zeros"}[idx%4], 40+idx%150, seed+int64(idx))...)
+							if bl == 1 && len(data) > 60 {
+								data = data[:60] // one block per byte: keep it short
+							}
+							cut := idx % (len(data) + 1)
+							cases = append(cases, xzCase{G: XZCfg{LC: p[0], LP: p[1], PB: p[2], DictCap: d, BufSize: b, BlockSize: bl, Check: ck, Matcher: m},
+								Hist: []string{"W", "W", "C"}, Fixed: [][]byte{data[:cut], data[cut:]}, Tag: "product"})
+						}
+					}
+				}
+			}
+		}
+	}
 	return cases
 }
 
